@@ -919,18 +919,21 @@ class VM:
                 )
                 js_func._compiled = compiled_func
 
-                # Create prototype object for the function
-                # In JavaScript, every function has a prototype property
-                # It is an ordinary object: it inherits from Object.prototype
-                object_constructor = self.globals.get("Object")
-                prototype = JSObject(getattr(object_constructor, "_prototype", None))
-                prototype.set("constructor", js_func)
-                js_func._prototype = prototype
-
-                # An arrow function has no `this` of its own: it keeps the `this` of the
-                # scope that creates it, whatever the later call form is
                 if compiled_func.is_arrow:
+                    # An arrow function has no `this` of its own: it keeps the `this` of
+                    # the scope that creates it, whatever the later call form is. It
+                    # cannot be constructed and so has no prototype property either
                     js_func._bound_this = frame.this_value
+                else:
+                    # Create prototype object for the function
+                    # Every function that can be constructed has a prototype property
+                    # It is an ordinary object: it inherits from Object.prototype
+                    object_constructor = self.globals.get("Object")
+                    prototype = JSObject(
+                        getattr(object_constructor, "_prototype", None)
+                    )
+                    prototype.set("constructor", js_func)
+                    js_func._prototype = prototype
 
                 # Capture closure cells for free variables
                 if compiled_func.free_vars:
@@ -2710,6 +2713,11 @@ class VM:
         constructor = self.stack.pop()
 
         if isinstance(constructor, JSFunction):
+            target = constructor
+            while hasattr(target, "_original_func"):
+                target = target._original_func
+            if getattr(getattr(target, "_compiled", None), "is_arrow", False):
+                raise JSTypeError("Arrow function is not a constructor")
             # Create new object
             obj = JSObject()
             # Set prototype from constructor's prototype property; when that is not
